@@ -25,7 +25,7 @@ BINARY = ["add", "subtract", "multiply", "true_divide", "floor_divide", "remaind
 ALIGN = ["identical", "coincident", "nested", "interleaved", "constA", "constB", "independent"]
 REDS = ["sum", "any", "all", "max", "mean", "np.sum", "np.any", "np.all", "np.mean"]
 KINDS = ["unary", "rl", "rl_derived", "inplace", "pyscalar", "npscalar", "reduce", "concat", "hist"]
-FLOOR_TAGS = ["k:" + k for k in KINDS] + ["align:" + a for a in ALIGN] + ["side:L", "side:R", "kind:b", "kind:i", "kind:u", "kind:f", "noncommutative"] + ["red:" + r for r in REDS]
+FLOOR_TAGS = ["k:" + k for k in KINDS] + ["align:" + a for a in ALIGN] + ["side:L", "side:R", "kind:b", "kind:i", "kind:u", "kind:f", "noncommutative"] + ["red:" + r for r in REDS] + ["via:cmp-mixed"]
 FLOOR_MONITORS = ["c16:compare", "c16:operands-unchanged", "c16:canonical", "inv:rla"]
 N_RANDOM = {"quick": 36000, "thorough": 400000}
 PYSCALARS = [2, 3, -1, 0, 2.5, True, False]
@@ -387,6 +387,10 @@ def directed():
             yield {"kind": "reduce2", "dtype": "int64", "vals": vals, "name": name, "via": "mul0"}
             yield {"kind": "reduce2", "dtype": "int64", "vals": vals, "name": name, "via": "concat"}
             yield {"kind": "reduce2", "dtype": "int64", "vals": vals, "name": name, "via": "astype"}
+    for vals, cmp_, thr in (([1, 1, 2, 2, 2, 7, 7, 3], "gt", 5), ([1, 1, 2, 2, 2, 7, 7, 3], "lt", 5), ([1, 1, 2, 2, 2, 7, 7, 3], "ne", 7), ([1, 1, 2, 2, 2, 7, 7, 3], "eq", 3),
+                            ([4, 4, 4, 9], "eq", 9), ([9, 4, 4, 4], "ne", 9), ([1, 2, 3, 4, 5, 6], "ge", 6)):
+        for name in ("any", "np.any", "all", "np.all", "sum", "mean", "max"):
+            yield {"kind": "reduce2", "dtype": "int64", "vals": vals, "name": name, "via": "cmp", "cmp": cmp_, "thr": thr}
 
 
 def sweep(tier):
@@ -409,9 +413,12 @@ def sweep(tier):
 
 
 def random_case(rng, tier):
-    if rng.random() < 0.06:
+    if rng.random() < 0.1:
         v, _ = rl.gen_runs(rng, "int64", "small", 10)
-        return {"kind": "reduce2", "dtype": "int64", "vals": v.tolist(), "name": rng.choice(REDS), "via": rng.choice(["gt9", "mul0", "concat", "neg", "astype"])}
+        c = {"kind": "reduce2", "dtype": "int64", "vals": v.tolist(), "name": rng.choice(REDS), "via": rng.choice(["gt9", "mul0", "concat", "neg", "astype", "cmp", "cmp", "cmp"])}
+        if c["via"] == "cmp":
+            c.update(cmp=rng.choice(["gt", "lt", "eq", "ne", "ge"]), thr=rng.choice(v.tolist()), name=rng.choice(["any", "all", "np.any", "np.all", "sum", "np.sum", "mean", "max"]))
+        return c
     return gen_case(rng, tier)
 
 
@@ -430,6 +437,11 @@ def run(case):   # noqa: F811  -- adds reductions of *derived* encodings (which 
         d, dense = r.astype(bool), v.astype(bool)
     elif via == "gt9":
         d, dense = r > 100, v > 100
+    elif via == "cmp":
+        # a comparison with one of the array's own values: a boolean encoding that keeps the operand's runs (F F T F ...)
+        uf = {"gt": np.greater, "lt": np.less, "eq": np.equal, "ne": np.not_equal, "ge": np.greater_equal}[case["cmp"]]
+        d, dense = uf(r, case["thr"]), uf(v, case["thr"])
+        tags.append("via:cmp-mixed" if (dense.any() and not dense.all()) else "via:cmp-constant")
     elif via == "mul0":
         d, dense = r * 0, v * 0
     elif via == "neg":
